@@ -286,7 +286,8 @@ def run_child(rec: dict, deep_each_op: bool = False) -> dict:
     else:
         shallow_diff, additions = state.compare_shallow(PRISTINE_SHALLOW, state.shallow_view())
     deep_diff = None
-    if cfg.get("deep") or deep_each_op:
+    force_deep = not unchanged and shallow_diff is None  # contents differ although nothing moved
+    if cfg.get("deep") or deep_each_op or force_deep:
         deep_diff, a2 = state.preserved(PRISTINE_DEEP, state.deep_view())
         additions += a2
     obj_diff = None
@@ -304,7 +305,7 @@ def run_child(rec: dict, deep_each_op: bool = False) -> dict:
             break
     return {
         "outcomes": outcomes, "aborted": aborted, "shallow_diff": shallow_diff, "deep_diff": deep_diff,
-        "deep_checked": bool(cfg.get("deep") or deep_each_op), "first_deep_diff": first_deep_diff,
+        "deep_checked": bool(cfg.get("deep") or deep_each_op or force_deep), "first_deep_diff": first_deep_diff,
         "obj_diff": obj_diff, "additions": additions, "obj_additions": obj_additions,
         "states": sorted(states), "transitions": transitions, "nontrivial": nontrivial,
         "event_digest": log.digest(), "objects": len(snaps),
@@ -363,7 +364,7 @@ def judge(rec: dict, res: dict) -> dict | None:
                               f"{core.jdump(want)[:200]} but after this history -> {core.jdump(got)[:200]}"}
     if res["shallow_diff"] or res["deep_diff"]:
         d = res["shallow_diff"] or res["deep_diff"]
-        where = d.split("[", 2)[1].split("]")[0] if d.startswith("registry[") else d.strip("/").split("/")[0].split(":")[0]
+        where = d.split("[", 2)[1].split("]")[0] if d.startswith("registry[") else d.strip("/").split("/")[0].split(":")[0].split("[")[0]
         return {"kind": "registry-modified", "op_index": (res.get("first_deep_diff") or [None])[0],
                 "signature": {"kind": "registry-modified", "where": where[:40]},
                 "detail": f"bundled data changed by the history: {d}"
